@@ -1435,6 +1435,7 @@ pub fn replay(cfg: &Cfg, rep: &mut Report) {
     let mon = cfg.str_or("mon", "all").to_string();
     // fault witness?
     if let Some(inj) = lines.iter().find(|l| l.starts_with("#inject")) {
+
         let num = |k: &str| -> u64 { inj.split_whitespace().find_map(|p| p.strip_prefix(&format!("{}=", k)).and_then(|v| v.parse().ok())).unwrap_or(0) };
         fault::run_lines(&coll, &ctor, &lines, rep, 0, Some((num("op") as usize, num("callback"))));
         return;
@@ -1452,6 +1453,9 @@ pub fn replay(cfg: &Cfg, rep: &mut Report) {
             let seed: u64 = val("seed").parse().unwrap_or(1);
             let r = if l.starts_with("#export-size") {
                 export_case(&val("coll"), n, &val("order"), val("expired_every").parse().unwrap_or(0), seed, rep)
+            } else if l.starts_with("#seg-bulk") {
+                let m = SMon::from_list(&mon);
+                seg_suites::seg_bulk_case(n, val("pattern").parse().unwrap_or(0), &m, rep, 0).map_err(|e| e.0)
             } else if l.starts_with("#big") {
                 big_case_with(&val("coll"), n, &val("order"), val("hint").parse().unwrap_or(8), seed, rep, &val("probes"))
             } else {
